@@ -1062,6 +1062,39 @@ func (f *Frame) step(in ssa.Instruction) {
 				f.set(x, f.tableValue(tbl, AInt{a: f.use(k, "map key")}, "", x.Type(), x.Name()))
 				break
 			}
+			// a two-entry table keyed by a boolean: false-entry + (true-entry - false-entry)*key
+			if kb, ok := f.val(x.Index).(ABool); ok && isIntType(x.Type()) {
+				vf, okf := f.tableValue(tbl, AInt{a: affConst(0)}, "", x.Type(), x.Name()).(AInt)
+				vt, okt := f.tableValue(tbl, AInt{a: affConst(1)}, "", x.Type(), x.Name()).(AInt)
+				if okf && okt && vf.a.isConst() && vt.a.isConst() {
+					if kb.f.kind == fConst {
+						if kb.f.b {
+							f.set(x, vt)
+						} else {
+							f.set(x, vf)
+						}
+						break
+					}
+					if kb.f.kind == fAtom && kb.f.atom.op == opEQ {
+						// the atom is "s - 1 == 0" for a 0/1 symbol s
+						if a := kb.f.atom.a; len(a.terms) == 1 && a.terms[0].k == 1 && a.c == -1 && a.terms[0].s.lo == 0 && a.terms[0].s.hi == 1 {
+							f.set(x, AInt{a: affSym(a.terms[0].s).scale(vt.a.c - vf.a.c).addc(vf.a.c)})
+							break
+						}
+					}
+					// any other condition: a fresh value bound path by path, like a phi
+					lo, hi := vf.a.c, vt.a.c
+					if lo > hi {
+						lo, hi = hi, lo
+					}
+					m := affSym(f.an.u.sym(f.key+"tbl:"+x.Name(), lo, hi))
+					pos := dnfAnd(DNF{Conj{atomEQ(m, vt.a)}}, kb.f.dnf(false))
+					neg := dnfAnd(DNF{Conj{atomEQ(m, vf.a)}}, kb.f.dnf(true))
+					f.cur = f.compress(dnfAnd(f.cur, append(pos, neg...)))
+					f.set(x, AInt{a: m})
+					break
+				}
+			}
 		}
 		f.set(x, f.an.u.symbolic(f.key+x.Name(), x.Type()))
 	case *ssa.Range, *ssa.Next, *ssa.MakeMap, *ssa.MakeChan, *ssa.SliceToArrayPointer, *ssa.MultiConvert:
